@@ -4,6 +4,9 @@ CHECKS = {
  "C01": ("property-based testing (proptest): constructed carry/borrow families + special-digit operands, every operator form, differential against RefInt, in release and debug-assertion profiles",
          "Generated-input exploration of add/sub over all forms and both operand orders with operand families built to reach every asm-block / tail / propagation / growth branch (probe counters reported in evidence); a violation is shrunk to a minimal replayable case.",
          ORACLE_NOTE, "DESIGN.md section 3 C01"),
+ "C03": ("property-based testing (proptest): constructed add-back / top-digit-equal / shift / near-product families, unique-solution predicate a=q*b+r with per-convention range+sign conditions evaluated in RefInt, all API forms, zero-divisor clause",
+         "Generated-input exploration of every division API and convention; the rare Knuth-D branches (add-back, top digit equal, refinement) are reached by construction and counted by probes in the evidence.",
+         ORACLE_NOTE, "DESIGN.md section 3 C03"),
 }
 _pending = "check not built yet in this revision (work in progress; see DESIGN.md section 9 build order)"
 NOT_APPLICABLE = {pid: _pending for pid in props if pid not in CHECKS}
